@@ -115,6 +115,10 @@ pub struct WlSpec {
     pub price: u128,
     pub ibc: bool,
     pub stages: Vec<StageSpec>,
+    /// tiered list kinds: +1 = instantiate with one member list MORE than stages (the surplus list holds the
+    /// stranger and must never become effective), -1 = one list fewer (must be rejected)
+    #[serde(default)]
+    pub lists_delta: i8,
 }
 /// the minter family member a case runs on: 0..=5 the vending minters, 6..=8 the open-edition minters
 #[derive(Clone, Copy, Debug)]
@@ -155,6 +159,14 @@ impl WlSpec {
         let h = if is_tiered(&self.kind) { mtree::Hasher::Blake3x16 } else { mtree::Hasher::Sha256 };
         mtree::build(h, &self.stage_leaves(i))
     }
+    fn delta_lists(&self, mut lists: Vec<Value>, surplus: Value) -> Vec<Value> {
+        if self.lists_delta > 0 {
+            lists.push(surplus);
+        } else if self.lists_delta < 0 {
+            lists.pop();
+        }
+        lists
+    }
     fn msg(&self, t0: u64) -> (Value, u128) {
         let denom = if self.ibc { IBC } else { NATIVE };
         let t = |secs: u64| json!((t0 + secs * 1_000_000_000).to_string());
@@ -188,12 +200,12 @@ impl WlSpec {
                 100_000_000,
             ),
             "tiered" => (
-                json!({"members": self.stages.iter().map(addrs).collect::<Vec<_>>(), "stages": stages(true),
+                json!({"members": self.delta_lists(self.stages.iter().map(addrs).map(Value::from).collect(), json!([STRANGER])), "stages": stages(true),
                     "member_limit": 1000, "admins": [CREATOR], "admins_mutable": true}),
                 100_000_000,
             ),
             "tiered-flex" => (
-                json!({"members": self.stages.iter().map(flexm).collect::<Vec<_>>(), "stages": stages(false),
+                json!({"members": self.delta_lists(self.stages.iter().map(flexm).map(Value::from).collect(), json!([{"address": STRANGER, "mint_count": 3}])), "stages": stages(false),
                     "member_limit": 1000, "admins": [CREATOR], "admins_mutable": true, "whale_cap": null}),
                 100_000_000,
             ),
@@ -225,6 +237,11 @@ pub enum COp {
     WlCap { stage: u32, cap: Option<u32> },
     WlAdd { stage: u32, who: String, count: u32 },
     WlRemove { stage: u32, who: String },
+    /// tiered list kinds: AddStage / RemoveStage / UpdateStageConfig with any subset of its optional fields
+    /// (a None field is NOT sent: the stage keeps its value)
+    WlAddStage { stage: StageSpec },
+    WlRemoveStage { stage: u32 },
+    WlUpdateStage { stage: u32, name: Option<String>, start: Option<u64>, end: Option<u64>, price: Option<u128>, limit: Option<u32>, cap: Option<u32> },
     /// the admin airdrops (MintTo) until nothing is mintable
     SellOut,
     /// an open-edition-only op (UpdateEndTime ...); ignored on the vending minters
@@ -326,6 +343,9 @@ fn op_kind(op: &COp) -> &'static str {
         COp::WlCap { .. } => "wl_update_stage_cap",
         COp::WlAdd { .. } => "wl_add_member",
         COp::WlRemove { .. } => "wl_remove_member",
+        COp::WlAddStage { .. } => "wl_add_stage",
+        COp::WlRemoveStage { .. } => "wl_remove_stage",
+        COp::WlUpdateStage { .. } => "wl_update_stage",
         COp::SellOut => "mint_to",
         COp::E(OeOp::UpdateEndTime { .. }) => "update_end_time",
         COp::E(_) => "other",
@@ -334,6 +354,131 @@ fn op_kind(op: &COp) -> &'static str {
 
 fn q(app: &chain::App, a: &str, m: Value) -> Option<Value> {
     app.wrap().query_wasm_smart::<Value>(Addr::unchecked(a), &m).ok()
+}
+
+
+// ---------- the admin's ledger ----------
+/// What the whitelist ADMIN set, kept by the harness from the accepted instantiate / admin messages with the
+/// documented semantics (an omitted optional field keeps its value; remove_stage(i) drops stage i and every later
+/// stage with their members and allowances; add_stage appends its own list; adding an address that is already
+/// listed keeps its allowance).  The C03 monitors judge entitlements and caps against THIS, never against
+/// limits read back from the whitelist.
+#[derive(Clone, Debug)]
+struct LStage {
+    start: u64, // absolute nanoseconds
+    end: u64,
+    limit: u32,
+    cap: Option<u32>,
+    price: u128,
+    members: BTreeMap<String, u32>,
+}
+#[derive(Clone, Debug)]
+struct Ledger {
+    kind: String,
+    t0: u64,
+    stages: Vec<LStage>,
+}
+const NS: u64 = 1_000_000_000;
+impl Ledger {
+    fn lstage(t0: u64, s: &StageSpec, price: u128, flex: bool) -> LStage {
+        let mut members = BTreeMap::new();
+        for (a, n) in &s.members {
+            // instantiate of a flex list: a repeated address overwrites; add_stage: the first entry stays -- the
+            // generators never repeat an address with different numbers inside one list
+            members.entry(a.clone()).or_insert(if flex { *n } else { *n });
+        }
+        LStage { start: t0 + s.start * NS, end: t0 + s.end * NS, limit: s.limit, cap: s.cap, price, members }
+    }
+    fn from_spec(sp: &WlSpec, t0: u64) -> Ledger {
+        let tiered = is_tiered(&sp.kind);
+        let mut stages: Vec<LStage> = sp.stages.iter().map(|s| Self::lstage(t0, s, sp.price, is_flex(&sp.kind))).collect();
+        if !tiered {
+            stages.truncate(1);
+            stages[0].cap = None;
+        }
+        Ledger { kind: sp.kind.clone(), t0, stages }
+    }
+    fn from_init(i: &InitWl, t0: u64) -> Ledger {
+        let stages = i
+            .windows
+            .iter()
+            .map(|(s, e)| LStage {
+                start: t0 + s * NS,
+                end: t0 + e * NS,
+                limit: i.limit,
+                cap: if is_tiered(&i.kind) { i.cap } else { None },
+                price: i.price,
+                members: i.members.iter().map(|m| (m.clone(), i.flex_count)).collect(),
+            })
+            .collect();
+        Ledger { kind: i.kind.clone(), t0, stages }
+    }
+    /// the stage the property calls active: tiered = the earliest stage whose window, both ends inclusive,
+    /// contains the block time; a single-window whitelist is active from its start up to (not including) its end
+    fn active(&self, now: u64) -> Option<usize> {
+        if is_tiered(&self.kind) {
+            self.stages.iter().position(|s| s.start <= now && now <= s.end)
+        } else {
+            self.stages.iter().position(|s| s.start <= now && now < s.end)
+        }
+    }
+    /// an ACCEPTED admin message
+    fn apply(&mut self, cop: &COp) {
+        let flex = is_flex(&self.kind);
+        match cop {
+            COp::WlLimit { stage, limit } => {
+                let i = if is_tiered(&self.kind) { *stage as usize } else { 0 };
+                if let Some(s) = self.stages.get_mut(i) {
+                    s.limit = *limit;
+                }
+            }
+            COp::WlCap { stage, cap: Some(c) } => {
+                if let Some(s) = self.stages.get_mut(*stage as usize) {
+                    s.cap = Some(*c);
+                }
+            }
+            COp::WlCap { cap: None, .. } => {} // `null` is "field omitted": the cap stays
+            COp::WlAdd { stage, who, count } => {
+                let i = if is_tiered(&self.kind) { *stage as usize } else { 0 };
+                if let Some(s) = self.stages.get_mut(i) {
+                    s.members.entry(who.clone()).or_insert(if flex { *count } else { 0 });
+                }
+            }
+            COp::WlRemove { stage, who } => {
+                let i = if is_tiered(&self.kind) { *stage as usize } else { 0 };
+                if let Some(s) = self.stages.get_mut(i) {
+                    s.members.remove(who);
+                }
+            }
+            COp::WlAddStage { stage } => {
+                let price = self.stages.first().map_or(WL_PRICE, |s| s.price);
+                let l = Self::lstage(self.t0, stage, price, flex);
+                self.stages.push(l);
+            }
+            COp::WlRemoveStage { stage } => self.stages.truncate(*stage as usize),
+            COp::WlUpdateStage { stage, start, end, price, limit, cap, .. } => {
+                let t0 = self.t0;
+                if let Some(s) = self.stages.get_mut(*stage as usize) {
+                    if let Some(x) = start {
+                        s.start = t0 + x * NS;
+                    }
+                    if let Some(x) = end {
+                        s.end = t0 + x * NS;
+                    }
+                    if let Some(x) = price {
+                        s.price = *x;
+                    }
+                    if let Some(x) = limit {
+                        s.limit = *x;
+                    }
+                    if let Some(x) = cap {
+                        s.cap = Some(*x);
+                    }
+                }
+            }
+            _ => {}
+        }
+    }
 }
 
 /// what the contracts say right before a mint (monitor input; the property's "in force")
@@ -421,6 +566,7 @@ struct Mon {
     fam: Fam,
     specs: BTreeMap<String, WlSpec>, // whitelist address -> what the harness put in it
     kinds: BTreeMap<String, String>,
+    ledgers: BTreeMap<String, Ledger>, // whitelist address -> what its admin set
     pub_since: BTreeMap<String, u64>, // public mints initiated (incl. admin MintTo/MintFor)
     pub_own: BTreeMap<String, u64>,   // public Mint calls completed
     wl_by: BTreeMap<(String, String, u64), u64>, // (whitelist, address, stage slot) -> mints
@@ -428,6 +574,7 @@ struct Mon {
     stage_by: BTreeMap<(String, u64), u64>,
     purged: bool,
     mismatch_reported: bool,
+    ledger_mismatch_reported: bool,
     violations: Vec<(String, String)>,
 }
 impl Mon {
@@ -436,6 +583,7 @@ impl Mon {
             fam,
             specs: BTreeMap::new(),
             kinds: BTreeMap::new(),
+            ledgers: BTreeMap::new(),
             pub_since: BTreeMap::new(),
             pub_own: BTreeMap::new(),
             wl_by: BTreeMap::new(),
@@ -443,44 +591,52 @@ impl Mon {
             stage_by: BTreeMap::new(),
             purged: false,
             mismatch_reported: false,
+            ledger_mismatch_reported: false,
             violations: vec![],
         }
     }
     fn mint_ok(&mut self, who: &str, p: &Pre, m_stage: Option<u32>, m_proof: bool, m_alloc: Option<u32>, desc: &str) {
         let vname = self.fam.name;
-        // whitelist phase: a whitelist is attached and active; for a tiered whitelist "active" and "which stage" are
-        // what the property says (earliest stage whose inclusive window contains the block time), computed in
-        // `snapshot` from the Stages list, not taken from ActiveStageId / Config
-        let in_wl = p.wl.is_some() && if p.tiered { p.prop_stage.is_some() } else { p.active };
+        // whitelist phase, active stage, entitlement and cap: from the ADMIN'S LEDGER (what the whitelist admin set,
+        // with the documented semantics); only for a whitelist the harness did not create itself the whitelist's own
+        // answers are used (tiered: the stage computed from the Stages windows, see `snapshot`)
+        let led = p.wl.as_ref().and_then(|a| self.ledgers.get(a)).cloned();
+        let in_wl = match (&p.wl, &led) {
+            (Some(_), Some(l)) => l.active(p.now).is_some(),
+            (Some(_), None) => if p.tiered { p.prop_stage.is_some() } else { p.active },
+            _ => false,
+        };
         if in_wl {
-            // ---- a whitelist mint: entitlement in force, from the whitelist's own answers ----
             let wl = p.wl.clone().unwrap();
             let k = self.kinds.get(&wl).cloned().unwrap_or_default();
-            let slot = if p.tiered { p.prop_stage.unwrap_or(99) } else { 0 };
-            let stage_limit = if p.tiered { p.prop_limit } else { p.wl_limit };
-            let proven = is_merkle(&k)
-                && m_proof
-                && self.specs.get(&wl).map_or(false, |sp| {
-                    let i = if p.tiered { slot.saturating_sub(1) as usize } else { 0 };
-                    i < sp.stages.len() && sp.stage_leaves(i).contains(&leaf(m_stage, who, m_alloc))
-                });
-            let ent: u64 = if is_flex(&k) {
-                if p.tiered {
-                    p.prop_member.map_or(0, |(is, n)| if is { n } else { 0 })
+            let (slot, ent, cap, tiered, proven): (u64, u64, Option<u64>, bool, bool) = if let Some(l) = &led {
+                let i = l.active(p.now).unwrap();
+                let st = &l.stages[i];
+                let tiered = is_tiered(&l.kind);
+                let proven = is_merkle(&k)
+                    && m_proof
+                    && self.specs.get(&wl).map_or(false, |sp| i < sp.stages.len() && sp.stage_leaves(i).contains(&leaf(m_stage, who, m_alloc)));
+                let ent: u64 = if is_flex(&k) {
+                    st.members.get(who).map_or(0, |n| *n as u64)
+                } else if is_merkle(&k) {
+                    if proven { m_alloc.map(|a| a as u64).unwrap_or(st.limit as u64) } else { 0 }
+                } else if st.members.contains_key(who) {
+                    st.limit as u64
                 } else {
-                    p.member_count.unwrap_or(0)
-                }
-            } else if is_merkle(&k) {
-                if !proven {
                     0
-                } else {
-                    m_alloc.map(|a| a as u64).unwrap_or(stage_limit.unwrap_or(0))
-                }
-            } else if p.tiered {
-                // only a member of THAT stage is entitled, to that stage's limit
-                if p.prop_member.map_or(false, |(is, _)| is) { stage_limit.unwrap_or(0) } else { 0 }
+                };
+                (if tiered { i as u64 + 1 } else { 0 }, ent, if tiered { st.cap.map(|c| c as u64) } else { None }, tiered, proven)
             } else {
-                p.wl_limit.unwrap_or(0)
+                let slot = if p.tiered { p.prop_stage.unwrap_or(99) } else { 0 };
+                let stage_limit = if p.tiered { p.prop_limit } else { p.wl_limit };
+                let ent: u64 = if is_flex(&k) {
+                    if p.tiered { p.prop_member.map_or(0, |(is, n)| if is { n } else { 0 }) } else { p.member_count.unwrap_or(0) }
+                } else if p.tiered {
+                    if p.prop_member.map_or(false, |(is, _)| is) { stage_limit.unwrap_or(0) } else { 0 }
+                } else {
+                    p.wl_limit.unwrap_or(0)
+                };
+                (slot, ent, if p.tiered { p.prop_cap } else { None }, p.tiered, false)
             };
             let n = self.wl_by.entry((wl.clone(), who.to_string(), slot)).or_insert(0);
             *n += 1;
@@ -494,10 +650,10 @@ impl Mon {
                     format!("{} + {} whitelist: {} completed whitelist mint #{} (stage slot {}) with entitlement {} in force ({})", vname, k, who, n, slot, ent, desc),
                 ));
             }
-            if p.tiered {
+            if tiered {
                 let t = self.stage_by.entry((wl.clone(), slot)).or_insert(0);
                 *t += 1;
-                if let Some(cap) = p.prop_cap {
+                if let Some(cap) = cap {
                     if *t > cap {
                         self.violations.push((
                             "C03:stage-limit-exceeded".into(),
@@ -549,6 +705,77 @@ impl Mon {
             self.violations.push((
                 "C03:tiered-config-vs-active-stage-mismatch".into(),
                 format!("{} + {} whitelist at block time {}: {}", self.fam.name, k, p.now, what.join("; ")),
+            ));
+        }
+    }
+    /// after an accepted instantiate / admin message the whitelist has to report what the admin set: stage
+    /// windows, per-address limits, caps, and every tracked address' membership and allowance per stage
+    fn readback(&mut self, app: &chain::App, wl: &str, after: &str) {
+        let Some(l) = self.ledgers.get(wl).cloned() else { return };
+        if is_merkle(&l.kind) || self.ledger_mismatch_reported {
+            return;
+        }
+        let mut what: Vec<String> = vec![];
+        let flex = is_flex(&l.kind);
+        let people = [CREATOR, BUYERS[0], BUYERS[1], BUYERS[2], STRANGER];
+        if is_tiered(&l.kind) {
+            let st = q(app, wl, json!({"stages": {}})).and_then(|v| v["stages"].as_array().cloned()).unwrap_or_default();
+            if st.len() != l.stages.len() {
+                what.push(format!("{} stages reported, the admin set {}", st.len(), l.stages.len()));
+            }
+            let t = |v: &Value| v.as_str().and_then(|x| x.parse::<u64>().ok()).unwrap_or(0);
+            for (i, ls) in l.stages.iter().enumerate() {
+                if let Some(sr) = st.get(i) {
+                    let sg = &sr["stage"];
+                    if t(&sg["start_time"]) != ls.start || t(&sg["end_time"]) != ls.end {
+                        what.push(format!("stage {} window {}..{} reported, set {}..{}", i, t(&sg["start_time"]), t(&sg["end_time"]), ls.start, ls.end));
+                    }
+                    if !flex && sg["per_address_limit"].as_u64() != Some(ls.limit as u64) {
+                        what.push(format!("stage {} per_address_limit {} reported, set {}", i, sg["per_address_limit"], ls.limit));
+                    }
+                    if sg["mint_count_limit"].as_u64() != ls.cap.map(|c| c as u64) {
+                        what.push(format!("stage {} mint_count_limit {} reported, set {:?}", i, sg["mint_count_limit"], ls.cap));
+                    }
+                    if sg["mint_price"]["amount"].as_str() != Some(ls.price.to_string().as_str()) {
+                        what.push(format!("stage {} price {} reported, set {}", i, sg["mint_price"]["amount"], ls.price));
+                    }
+                }
+                for a in people {
+                    if let Some(v) = q(app, wl, json!({"stage_member_info": {"stage_id": i, "member": a}})) {
+                        let is = v["is_member"].as_bool().unwrap_or(false);
+                        let n = v["per_address_limit"].as_u64().unwrap_or(0);
+                        let want = ls.members.get(a);
+                        if is != want.is_some() || (flex && is && Some(n) != want.map(|x| *x as u64)) {
+                            what.push(format!("stage {}: {} reported as member={} allowance={}, the admin set {:?}", i, a, is, n, want));
+                        }
+                    }
+                }
+            }
+        } else {
+            let ls = &l.stages[0];
+            if let Some(c) = q(app, wl, json!({"config": {}})) {
+                if !flex && c["per_address_limit"].as_u64() != Some(ls.limit as u64) {
+                    what.push(format!("per_address_limit {} reported, set {}", c["per_address_limit"], ls.limit));
+                }
+            }
+            for a in people {
+                let is = q(app, wl, json!({"has_member": {"member": a}})).and_then(|v| v["has_member"].as_bool()).unwrap_or(false);
+                let want = ls.members.get(a);
+                if is != want.is_some() {
+                    what.push(format!("{} reported as member={}, the admin set {:?}", a, is, want));
+                } else if flex && is {
+                    let n = q(app, wl, json!({"member": {"member": a}})).and_then(|v| v["mint_count"].as_u64());
+                    if n != want.map(|x| *x as u64) {
+                        what.push(format!("{} allowance {:?} reported, the admin set {:?}", a, n, want));
+                    }
+                }
+            }
+        }
+        if !what.is_empty() {
+            self.ledger_mismatch_reported = true;
+            self.violations.push((
+                "C03:whitelist-differs-from-admin-settings".into(),
+                format!("{} + {} whitelist after {}: {}", self.fam.name, l.kind, after, what.join("; ")),
             ));
         }
     }
@@ -651,7 +878,7 @@ fn attach_step_oe(w: &mut OeWorld, who: &str, a: &Addr) -> StepOut {
     StepOut { coq: Some(coq), ok, err, minted: None, is_minter_step: true }
 }
 
-fn wl_admin_msg(cop: &COp, k: &str) -> Value {
+fn wl_admin_msg(cop: &COp, k: &str, ledger_t0: u64) -> Value {
     match cop {
         COp::WlLimit { stage, limit } => {
             if is_tiered(k) {
@@ -662,7 +889,7 @@ fn wl_admin_msg(cop: &COp, k: &str) -> Value {
             }
         }
         COp::WlCap { stage, cap } => json!({"update_stage_config": {"stage_id": stage, "name": null, "start_time": null,
-            "end_time": null, "mint_price": null, "per_address_limit": null, "mint_count_limit": Some(cap)}}),
+            "end_time": null, "mint_price": null, "per_address_limit": null, "mint_count_limit": cap}}),
         COp::WlAdd { stage, who, count } => {
             let m = if is_flex(k) { json!([{"address": who, "mint_count": count}]) } else { json!([who]) };
             if is_tiered(k) {
@@ -678,8 +905,60 @@ fn wl_admin_msg(cop: &COp, k: &str) -> Value {
                 json!({"remove_members": {"to_remove": [who]}})
             }
         }
+        COp::WlAddStage { stage } => {
+            let t0 = ledger_t0;
+            let mut sg = json!({"name": "added", "start_time": (t0 + stage.start * NS).to_string(), "end_time": (t0 + stage.end * NS).to_string(),
+                "mint_price": {"amount": WL_PRICE.to_string(), "denom": NATIVE}, "mint_count_limit": stage.cap});
+            let members: Vec<Value> = if is_flex(k) {
+                stage.members.iter().map(|m| json!({"address": m.0, "mint_count": m.1})).collect()
+            } else {
+                sg["per_address_limit"] = json!(stage.limit);
+                stage.members.iter().map(|m| json!(m.0)).collect()
+            };
+            json!({"add_stage": {"stage": sg, "members": members}})
+        }
+        COp::WlRemoveStage { stage } => json!({"remove_stage": {"stage_id": stage}}),
+        COp::WlUpdateStage { stage, name, start, end, price, limit, cap } => {
+            let t0 = ledger_t0;
+            let mut m = json!({"stage_id": stage});
+            if let Some(x) = name {
+                m["name"] = json!(x);
+            }
+            if let Some(x) = start {
+                m["start_time"] = json!((t0 + x * NS).to_string());
+            }
+            if let Some(x) = end {
+                m["end_time"] = json!((t0 + x * NS).to_string());
+            }
+            if let Some(x) = price {
+                m["mint_price"] = json!({"amount": x.to_string(), "denom": NATIVE});
+            }
+            if let Some(x) = limit {
+                m["per_address_limit"] = json!(x);
+            }
+            if let Some(x) = cap {
+                m["mint_count_limit"] = json!(x);
+            }
+            json!({"update_stage_config": m})
+        }
         _ => json!({}),
     }
+}
+
+/// run one whitelist admin op on the whitelist the minter points at; an accepted op goes into the ledger, and the
+/// whitelist's own report of its stages / members is compared with the ledger right away
+fn do_wl_admin(app: &mut chain::App, mon: &mut Mon, wl: &str, cop: &COp) -> bool {
+    let k = mon.kinds.get(wl).cloned().unwrap_or_default();
+    let t0 = mon.ledgers.get(wl).map_or(0, |l| l.t0);
+    let msg = wl_admin_msg(cop, &k, t0);
+    let r = chain::exec(app, CREATOR, &Addr::unchecked(wl), &msg, &[]);
+    if r.is_ok() {
+        if let Some(l) = mon.ledgers.get_mut(wl) {
+            l.apply(cop);
+        }
+        mon.readback(app, wl, &format!("{:?}", cop));
+    }
+    r.is_ok()
 }
 fn wl_code_key(kind: &str) -> &'static str {
     match kind {
@@ -727,6 +1006,7 @@ fn run_case_vending(c: &Case) -> CaseResult {
     let mut mon = Mon::new(f);
     if let (Some(a), Some(i)) = (w.whitelist.clone(), &c.init_wl) {
         mon.kinds.insert(a.to_string(), i.kind.clone());
+        mon.ledgers.insert(a.to_string(), Ledger::from_init(i, w.t0));
     }
     let mut spare: Option<Addr> = None;
     let accounts = w.count_accounts();
@@ -754,18 +1034,21 @@ fn run_case_vending(c: &Case) -> CaseResult {
                 if let Ok(a) = r {
                     mon.specs.insert(a.to_string(), sp.clone());
                     mon.kinds.insert(a.to_string(), sp.kind.clone());
+                    mon.ledgers.insert(a.to_string(), Ledger::from_spec(sp, w.t0));
+                    mon.readback(&w.app, a.as_str(), "instantiate");
                     spare = Some(a);
                 }
                 continue;
             }
-            COp::WlLimit { .. } | COp::WlCap { .. } | COp::WlAdd { .. } | COp::WlRemove { .. } => {
+            COp::WlLimit { .. } | COp::WlCap { .. } | COp::WlAdd { .. } | COp::WlRemove { .. } | COp::WlAddStage { .. } | COp::WlRemoveStage { .. } | COp::WlUpdateStage { .. } => {
                 let Some(a) = w.minter_config()["whitelist"].as_str().map(|s| s.to_string()) else { continue };
-                let k = mon.kinds.get(&a).cloned().unwrap_or_default();
-                let msg = wl_admin_msg(cop, &k);
                 let before = w.balances_raw();
-                let r = chain::exec(&mut w.app, CREATOR, &Addr::unchecked(a), &msg, &[]);
+                let ok = do_wl_admin(&mut w.app, &mut mon, &a, cop);
                 record_drift(&mut w, &before);
-                *res.hist.entry(hkey(r.is_ok())).or_insert(0) += 1;
+                *res.hist.entry(hkey(ok)).or_insert(0) += 1;
+                if mon.violations.len() > 5 {
+                    break;
+                }
                 continue;
             }
             COp::Attach { who } => {
@@ -876,6 +1159,8 @@ fn run_case_oe(c: &Case) -> CaseResult {
                 w.addrs.id(a.as_str());
                 mon.specs.insert(a.to_string(), sp.clone());
                 mon.kinds.insert(a.to_string(), sp.kind.clone());
+                mon.ledgers.insert(a.to_string(), Ledger::from_spec(sp, w.t0));
+                mon.readback(&w.app, a.as_str(), "instantiate");
             }
             made.push(a);
         }
@@ -906,12 +1191,13 @@ fn run_case_oe(c: &Case) -> CaseResult {
                 made_i += 1;
                 continue;
             }
-            COp::WlLimit { .. } | COp::WlCap { .. } | COp::WlAdd { .. } | COp::WlRemove { .. } => {
+            COp::WlLimit { .. } | COp::WlCap { .. } | COp::WlAdd { .. } | COp::WlRemove { .. } | COp::WlAddStage { .. } | COp::WlRemoveStage { .. } | COp::WlUpdateStage { .. } => {
                 let Some(a) = w.minter_config()["whitelist"].as_str().map(|s| s.to_string()) else { continue };
-                let k = mon.kinds.get(&a).cloned().unwrap_or_default();
-                let msg = wl_admin_msg(cop, &k);
-                let r = chain::exec(&mut w.app, CREATOR, &Addr::unchecked(a), &msg, &[]);
-                *res.hist.entry(hkey(r.is_ok())).or_insert(0) += 1;
+                let ok = do_wl_admin(&mut w.app, &mut mon, &a, cop);
+                *res.hist.entry(hkey(ok)).or_insert(0) += 1;
+                if mon.violations.len() > 5 {
+                    break;
+                }
                 continue;
             }
             COp::Attach { .. } => None,
@@ -1195,7 +1481,7 @@ fn plan_spec(p: &Plan, base: u64) -> WlSpec {
         }
         stages.push(StageSpec { start, end, limit: p.limits[i], cap: if tiered { p.caps[i] } else { None }, members, noalloc });
     }
-    WlSpec { kind: p.kind.to_string(), price: WL_PRICE, ibc: false, stages }
+    WlSpec { kind: p.kind.to_string(), price: WL_PRICE, ibc: false, lists_delta: 0, stages }
 }
 
 /// the entitlement the generator expects for buyer b in stage i (only to size the bursts)
@@ -1263,7 +1549,7 @@ fn history(rng: &mut Rng, p: &Plan, tag: &str) -> Case {
                 .iter()
                 .map(|(s, e)| StageSpec { start: *s, end: *e, limit: p.limits[0], cap: p.caps[0], members: members.iter().map(|m| (m.clone(), p.limits[0])).collect(), noalloc: vec![] })
                 .collect();
-            cur = Some(WlSpec { kind: p.kind.into(), price: WL_PRICE, ibc: false, stages });
+            cur = Some(WlSpec { kind: p.kind.into(), price: WL_PRICE, ibc: false, lists_delta: 0, stages });
         }
         if cur.is_none() || p.swap {
             if p.swap && cur.is_none() {
@@ -1312,10 +1598,13 @@ fn history(rng: &mut Rng, p: &Plan, tag: &str) -> Case {
             burst(rng, &pp, &v, &sp, i, &mut ops, !p.noise);
             if p.noise && rng.chance(1, 2) {
                 // whitelist-side limit changes mid-stage, then another round
-                match rng.below(4) {
+                match rng.below(6) {
+                    // a stage update that only renames / re-sends the end: cap and per-address limit stay
+                    4 => ops.push(COp::WlUpdateStage { stage: i as u32, name: Some("noise".into()), start: None, end: None, price: None, limit: None, cap: None }),
+                    5 => ops.push(COp::WlUpdateStage { stage: i as u32, name: None, start: None, end: Some(st.end), price: if rng.chance(1, 2) { Some(WL_PRICE) } else { None }, limit: None, cap: None }),
                     0 => ops.push(COp::WlLimit { stage: i as u32, limit: rng.range(1, 3) as u32 }),
                     1 => ops.push(COp::WlCap { stage: i as u32, cap: if rng.chance(1, 4) { None } else { Some(rng.range(1, 6) as u32) } }),
-                    2 => ops.push(COp::WlAdd { stage: i as u32, who: (*rng.pick(&[BUYERS[2], STRANGER])).into(), count: rng.range(1, 3) as u32 }),
+                    2 => ops.push(COp::WlAdd { stage: i as u32, who: (*rng.pick(&[BUYERS[2], STRANGER, BUYERS[0]])).into(), count: rng.range(1, 3) as u32 }),
                     _ => ops.push(COp::WlRemove { stage: i as u32, who: (*rng.pick(&BUYERS)).into() }),
                 }
                 ops.push(at(st.start + 50, rng.below(1000) as i64));
@@ -1637,7 +1926,7 @@ fn corpus() -> Vec<Case> {
         let sp = WlSpec {
             kind: "merkle".into(),
             price: WL_PRICE,
-            ibc: false,
+            ibc: false, lists_delta: 0,
             stages: vec![StageSpec { start: 1000, end: 2000, limit: 1, cap: None, members: vec![("buyer1".into(), 1), ("buyer2".into(), 2), ("stranger".into(), 0)], noalloc: vec!["stranger".into()] }],
         };
         let t = sp.tree(0);
@@ -1708,7 +1997,7 @@ fn corpus() -> Vec<Case> {
         let flat = |members: Vec<(&str, u32)>, noalloc: Vec<&str>| WlSpec {
             kind: "merkle".into(),
             price: WL_PRICE,
-            ibc: false,
+            ibc: false, lists_delta: 0,
             stages: vec![StageSpec {
                 start: 1000,
                 end: 2000,
@@ -1753,7 +2042,7 @@ fn corpus() -> Vec<Case> {
         let spt = WlSpec {
             kind: "tiered-merkle".into(),
             price: WL_PRICE,
-            ibc: false,
+            ibc: false, lists_delta: 0,
             stages: vec![
                 tst(1000, 1300, vec![("buyer1", 0), ("buyer2", 1), ("buyer3", l + 1), ("stranger", 2)], vec!["stranger"]),
                 tst(1300, 1600, vec![("buyer1", l), ("buyer2", 0), ("buyer3", u32::MAX), ("stranger", l - 1)], vec![]),
@@ -1792,7 +2081,7 @@ fn corpus() -> Vec<Case> {
         let sp = WlSpec {
             kind: kind.into(),
             price: WL_PRICE,
-            ibc: false,
+            ibc: false, lists_delta: 0,
             stages: vec![
                 StageSpec { start: 1000, end: 1300, limit: 1, cap: Some(2), members: vec![("buyer1".into(), 1), ("buyer2".into(), 1), ("buyer3".into(), 1)], noalloc: vec![] },
                 StageSpec { start: 1300, end: 1600, limit: 2, cap: Some(3), members: vec![("buyer1".into(), 2), ("buyer2".into(), 2)], noalloc: vec![] },
@@ -1877,7 +2166,7 @@ fn touching_stage_cases() -> Vec<Case> {
             let sp = WlSpec {
                 kind: kind.into(),
                 price: WL_PRICE,
-                ibc: false,
+                ibc: false, lists_delta: 0,
                 stages: vec![
                     st(1000, 1300, 3, Some(7), vec![("buyer1", 3), ("buyer3", 3)]),
                     st(1300, 1600, 1, Some(2), vec![("buyer2", 1), ("buyer3", 1)]),
@@ -1946,6 +2235,166 @@ fn touching_stage_cases() -> Vec<Case> {
     v
 }
 
+/// whitelist ADMIN operations between the mints, for every minter family x list-based whitelist kind: members
+/// added / removed / re-added (flex: with a smaller or larger allowance), stages removed (last and non-last) and
+/// rebuilt with different lists, limits, caps and allowances, UpdateStageConfig with every subset of its optional
+/// fields (most of them omit the cap and the per-address limit), instantiate with a surplus / a missing member list
+fn wl_admin_cases() -> Vec<Case> {
+    let mut v = vec![];
+    let st = |s: u64, e: u64, limit: u32, cap: Option<u32>, m: Vec<(&str, u32)>| StageSpec {
+        start: s,
+        end: e,
+        limit,
+        cap,
+        members: m.into_iter().map(|(a, n)| (a.to_string(), n)).collect(),
+        noalloc: vec![],
+    };
+    for variant in 0..9usize {
+        let var = fam(variant);
+        let kinds: Vec<&str> = if var.flex {
+            vec!["flex", "tiered-flex"]
+        } else if var.merkle && var.oe {
+            vec![]
+        } else if var.merkle {
+            vec!["plain"] // (a Merkle minter cannot mint from the list-based tiered kind at all)
+        } else {
+            vec!["plain", "tiered"]
+        };
+        for kind in kinds {
+            let flex = is_flex(kind);
+            let mk = |tag: &str, ops: Vec<COp>| Case {
+                tag: format!("corpus:whitelist-admin:{}:{}:{}", tag, var.name, kind),
+                variant,
+                num_tokens: 40,
+                pal: 2,
+                price: PUB_PRICE,
+                start_in: START,
+                end_in: if variant >= 6 { Some(6000) } else { None },
+                unlimited: false,
+                init_wl: None,
+                ops,
+            };
+            if !is_tiered(kind) {
+                let sp = WlSpec { kind: kind.into(), price: WL_PRICE, ibc: false, lists_delta: 0, stages: vec![st(1000, 1600, 2, None, vec![("buyer1", 2), ("buyer2", 3)])] };
+                let go = |ops: &mut Vec<COp>, who: &str, times: usize| {
+                    for _ in 0..times {
+                        ops.push(honest_mint(&var, &sp, 0, who, WL_PRICE));
+                    }
+                };
+                let mut ops = vec![COp::MakeWl(sp.clone()), COp::Attach { who: CREATOR.into() }, at(100, 0)];
+                ops.push(COp::WlAdd { stage: 0, who: "buyer3".into(), count: 1 });
+                ops.push(COp::WlAdd { stage: 0, who: "buyer1".into(), count: 3 }); // already listed: its allowance stays
+                ops.push(COp::WlRemove { stage: 0, who: "buyer2".into() });
+                ops.push(COp::WlAdd { stage: 0, who: "buyer2".into(), count: 1 }); // re-listed with a smaller allowance
+                ops.push(COp::WlRemove { stage: 0, who: STRANGER.into() }); // not listed: rejected
+                if !flex {
+                    ops.push(COp::WlLimit { stage: 0, limit: 3 });
+                    ops.push(COp::WlLimit { stage: 0, limit: 1 });
+                    ops.push(COp::WlLimit { stage: 0, limit: 31 }); // above the maximum: rejected
+                }
+                ops.push(at(1000, 0));
+                go(&mut ops, "buyer1", 3);
+                go(&mut ops, "buyer2", 2);
+                go(&mut ops, "buyer3", 2);
+                ops.push(at(1200, 0));
+                if !flex {
+                    ops.push(COp::WlLimit { stage: 0, limit: 3 });
+                }
+                ops.push(COp::WlAdd { stage: 0, who: STRANGER.into(), count: 2 });
+                ops.push(COp::WlAdd { stage: 0, who: "buyer3".into(), count: 3 }); // larger allowance for a listed address: stays 1
+                ops.push(COp::WlRemove { stage: 0, who: "buyer3".into() }); // already started: rejected
+                go(&mut ops, "buyer1", 3);
+                go(&mut ops, STRANGER, 4);
+                go(&mut ops, "buyer3", 2);
+                v.push(mk("members", ops));
+                continue;
+            }
+            // ---- tiered kinds ----
+            let base = |delta: i8| WlSpec {
+                kind: kind.into(),
+                price: WL_PRICE,
+                ibc: false,
+                lists_delta: delta,
+                stages: vec![
+                    st(1000, 1300, 2, Some(3), vec![("buyer1", 2), ("buyer2", 2)]),
+                    st(1400, 1700, 2, Some(3), vec![("buyer1", 2), ("buyer3", 2)]),
+                    st(1800, 2100, 3, None, vec![("buyer1", 3), ("buyer2", 2)]),
+                ],
+            };
+            let sp = base(1);
+            let go = |ops: &mut Vec<COp>, who: &str, times: usize| {
+                for _ in 0..times {
+                    ops.push(honest_mint(&var, &sp, 0, who, WL_PRICE));
+                }
+            };
+            // --- stages removed and rebuilt ---
+            let mut ops = vec![COp::MakeWl(base(-1)), COp::MakeWl(sp.clone()), COp::Attach { who: CREATOR.into() }, at(100, 0)];
+            ops.push(COp::WlRemoveStage { stage: 2 }); // the last one
+            ops.push(COp::WlAddStage { stage: st(1800, 2100, 3, None, vec![("buyer1", 3), ("buyer2", 2)]) });
+            ops.push(COp::WlRemoveStage { stage: 1 }); // not the last one: stages 2 and 3 go, with members and allowances
+            ops.push(COp::WlAddStage { stage: st(1400, 1700, 1, Some(2), vec![("buyer2", 1), ("buyer3", 1)]) });
+            ops.push(COp::WlAddStage { stage: st(1800, 2100, 1, Some(4), vec![("buyer1", 1), ("buyer3", 2)]) }); // buyer1 re-listed smaller, buyer2 left off
+            ops.push(COp::WlAddStage { stage: st(2200, 2300, 1, None, vec![("buyer1", 1)]) }); // a fourth stage: rejected
+            ops.push(COp::WlAdd { stage: 0, who: "buyer3".into(), count: 1 });
+            ops.push(COp::WlAdd { stage: 0, who: "buyer1".into(), count: 3 }); // already listed: stays 2
+            ops.push(COp::WlRemove { stage: 0, who: "buyer2".into() });
+            ops.push(COp::WlAdd { stage: 0, who: "buyer2".into(), count: 1 });
+            ops.push(COp::WlRemove { stage: 0, who: STRANGER.into() }); // rejected
+            ops.push(COp::WlUpdateStage { stage: 0, name: None, start: None, end: Some(1350), price: None, limit: None, cap: None });
+            ops.push(COp::WlUpdateStage { stage: 1, name: Some("renamed".into()), start: None, end: None, price: None, limit: None, cap: None });
+            ops.push(COp::WlUpdateStage { stage: 2, name: None, start: Some(1750), end: None, price: None, limit: None, cap: None });
+            ops.push(at(1000, 0));
+            go(&mut ops, "buyer1", 3);
+            go(&mut ops, "buyer2", 2);
+            ops.push(at(1200, 0));
+            // mid-stage: only the end moves; cap (3) and per-address limit stay
+            ops.push(COp::WlUpdateStage { stage: 0, name: None, start: None, end: Some(1360), price: None, limit: None, cap: None });
+            go(&mut ops, "buyer3", 2);
+            go(&mut ops, "buyer2", 2);
+            go(&mut ops, "buyer1", 1);
+            ops.push(at(1400, 0));
+            go(&mut ops, "buyer2", 2);
+            go(&mut ops, "buyer3", 2);
+            go(&mut ops, "buyer1", 1);
+            ops.push(at(1750, 0));
+            go(&mut ops, "buyer1", 3);
+            go(&mut ops, "buyer2", 2);
+            go(&mut ops, "buyer3", 3);
+            v.push(mk("rebuild", ops));
+            // --- UpdateStageConfig with every subset of its optional fields, on the middle stage ---
+            let sp2 = base(0);
+            let mut ops = vec![COp::MakeWl(sp2.clone()), COp::Attach { who: CREATOR.into() }, at(100, 0)];
+            ops.push(COp::WlAdd { stage: 1, who: "buyer2".into(), count: 1 });
+            for mask in 0u32..64 {
+                if flex && mask & 16 != 0 {
+                    continue; // the flex stage has no per_address_limit
+                }
+                ops.push(COp::WlUpdateStage {
+                    stage: 1,
+                    name: if mask & 1 != 0 { Some(format!("m{}", mask)) } else { None },
+                    start: if mask & 2 != 0 { Some(1390 + 10 * ((mask >> 2) & 1) as u64) } else { None },
+                    end: if mask & 4 != 0 { Some(1700 + 10 * ((mask >> 3) & 1) as u64) } else { None },
+                    price: if mask & 8 != 0 { Some(WL_PRICE) } else { None },
+                    limit: if mask & 16 != 0 { Some(1 + (mask & 1)) } else { None },
+                    cap: if mask & 32 != 0 { Some(2 + ((mask >> 1) & 1)) } else { None },
+                });
+            }
+            ops.push(COp::WlUpdateStage { stage: 1, name: Some("final".into()), start: Some(1400), end: Some(1700), price: Some(WL_PRICE), limit: if flex { None } else { Some(1) }, cap: Some(2) });
+            ops.push(COp::WlUpdateStage { stage: 1, name: None, start: None, end: Some(1705), price: None, limit: None, cap: None });
+            ops.push(COp::WlUpdateStage { stage: 1, name: Some("again".into()), start: None, end: None, price: Some(WL_PRICE), limit: None, cap: None });
+            ops.push(at(1400, 0));
+            go(&mut ops, "buyer1", 2);
+            go(&mut ops, "buyer3", 2);
+            ops.push(at(1500, 0));
+            ops.push(COp::WlUpdateStage { stage: 1, name: None, start: None, end: Some(1710), price: None, limit: None, cap: None });
+            go(&mut ops, "buyer2", 2);
+            go(&mut ops, "buyer3", 1);
+            v.push(mk("update-subsets", ops));
+        }
+    }
+    v
+}
+
 /// pairings the wire formats do not admit: creation with / SetWhitelist to an incompatible kind, then mints
 fn incompatible_cases() -> Vec<Case> {
     let mut v = vec![];
@@ -1957,7 +2406,7 @@ fn incompatible_cases() -> Vec<Case> {
             }
             let tiered = is_tiered(kind);
             let mk = |s: u64, e: u64| StageSpec { start: s, end: e, limit: 1, cap: None, members: vec![("buyer1".into(), 2), ("buyer2".into(), 1)], noalloc: vec![] };
-            let sp = WlSpec { kind: kind.into(), price: WL_PRICE, ibc: false, stages: if tiered { vec![mk(1000, 1300), mk(1300, 1600)] } else { vec![mk(1000, 1600)] } };
+            let sp = WlSpec { kind: kind.into(), price: WL_PRICE, ibc: false, lists_delta: 0, stages: if tiered { vec![mk(1000, 1300), mk(1300, 1600)] } else { vec![mk(1000, 1600)] } };
             let pm = |who: &str, amt: u128| if var.merkle { mintm(who, amt, None, None, None) } else { mint(who, amt) };
             let mut ops = vec![COp::MakeWl(sp.clone()), COp::Attach { who: CREATOR.into() }, at(1000, 0)];
             for who in ["buyer1", "buyer1", "buyer2", "buyer3"] {
@@ -2037,6 +2486,7 @@ fn all_cases(a: &Args) -> Vec<Case> {
     let mut rng = Rng::new(a.seed);
     let mut v = corpus();
     v.extend(touching_stage_cases());
+    v.extend(wl_admin_cases());
     for (tag, p) in probe_plans() {
         v.push(history(&mut rng, &p, &tag));
     }
